@@ -32,7 +32,7 @@ func (g *genC15) Config(rng *Rng, tier string) Config {
 		}
 	}
 	c.InvCheckPeriod = uint(rng.Pick64(0, 0, 1, 5))
-	g.net = newNet(rng, []string{"tx_dup", "tx_delay", "tx_reorder", "out_of_gas", "crash_restart", "tx_drop"}, 4)
+	g.net = newNet(rng, []string{"tx_dup", "tx_delay", "tx_reorder", "out_of_gas", "crash_restart", "tx_drop", "multi_msg"}, 4)
 	g.nb = 25 + rng.Intn(30)
 	if tier == "thorough" {
 		g.nb = 30 + rng.Intn(60)
